@@ -91,9 +91,14 @@ class ContractTask(Task):
                         cex = {"__error__": repr(e)}
                 detail = {"outcome": outcome, "decisions": list(unit),
                           "model": str(v.model)[:2000] if v.model is not None else None}
+            if (v.meta or {}).get("bounded") and v.status != "failed":
+                continue          # a bounded unrolling proves nothing: only its refutations are kept (for native replay)
             e = ob(v.name, v.status, v.backend, v.secs, v.trivial, cex, v.meta, v.smt_hash, detail)
             out.append(e)
-        return {"obs": out, "covered": sorted(ctx.covered), "assumptions": list(reg.assumptions)}
+        r = {"obs": out, "covered": sorted(ctx.covered), "assumptions": list(reg.assumptions)}
+        if getattr(ctx, "bounded", None):
+            r["oos"] = "; ".join(ctx.bounded)
+        return r
 
     # stage 3
     def finish(self, partials, tier):
@@ -440,7 +445,10 @@ def main(prop, tier, seed, jobs=None, update_baseline=False):
                 break
         if not reported:
             imprecise = o["meta"].get("imprecise") or any((fl.get("meta") or {}).get("imprecise") for fl in new_fail)
-            if imprecise and not o["meta"].get("definite"):
+            if o["meta"].get("bounded"):
+                # refuted only on a bounded unrolling and no native witness: the function is already reported out of reach
+                undecided.append((name, f"sat-on-a-bounded-unrolling {o['meta']['bounded']}", last_path))
+            elif imprecise and not o["meta"].get("definite"):
                 # the path that refuted it went through a construct the encoding only over-approximates (an unmodelled
                 # format directive, repr(), ...): without a native witness the refutation may be the encoding's own
                 undecided.append((name, f"sat-on-an-over-approximated-path {imprecise}", last_path))
